@@ -14,7 +14,8 @@ EXTENDS PoolCore, Json
 CONSTANTS Depth,      \* controllable steps per scenario
           Actors,     \* clients with the full alphabet
           Probes,     \* clients that only connect, run plain statements, leave
-          ProbesLast  \* TRUE: probes act only after every actor has gone (hand-off scenarios)
+          ProbesLast, \* TRUE: probes act only after every actor has gone (hand-off scenarios)
+          Extras      \* which of the optional environment steps the histories contain: subset of {"vanish", "reap"}
 
 VARIABLE hist
 
@@ -43,6 +44,9 @@ Controllable ==
      /\ \/ Connect(c) /\ Ctl("connect", c, "")
         \/ \E k \in Kinds : (c \in Actors \/ k \in ProbeKinds) /\ SendFirst(c, k) /\ Ctl("send", c, k)
         \/ \E k \in Kinds : (c \in Actors \/ k \in ProbeKinds) /\ NextMsg(c, k) /\ Ctl("send", c, k)
+        \/ \E k \in Kinds : "vanish" \in Extras /\ c \in Actors /\ SendFirstGone(c, k) /\ Ctl("send_vanish", c, k)
+        \/ \E k \in Kinds : "vanish" \in Extras /\ c \in Actors /\ NextMsgGone(c, k) /\ Ctl("send_vanish", c, k)
+        \/ "vanish" \in Extras /\ c \in Actors /\ pc[c] = "wait" /\ Vanish(c) /\ Ctl("vanish", c, "")
         \/ Leave(c) /\ Ctl("leave", c, "")
         \/ c \in Actors /\ pc[c] = "intx" /\ EndWithCleanup(c, TRUE) /\ Ctl("exit_in_tx", c, "")
         \/ c \in Actors /\ pc[c] = "intx" /\ EndWithCleanup(c, FALSE) /\ Ctl("idle_tx_timeout", c, "")
@@ -50,10 +54,18 @@ Controllable ==
         \/ CheckoutTimeout(c) /\ Ctl("checkout_timeout", c, "")
         \/ c \in Actors /\ pc[c] \in {"idle", "intx", "wait", "gone"} /\ Cancel(c) /\ Ctl("cancel", c, "")
 
+\* The reaper: every idle connection is closed (the harness lets idle_timeout pass); at most once per history.
+ReapAll ==
+  /\ "reap" \in Extras /\ MayAct /\ (\E s \in Conns : alive[s] /\ idle[s])
+  /\ ~\E i \in 1..Len(hist) : hist[i].op = "reap"
+  /\ alive' = [s \in Conns |-> alive[s] /\ ~idle[s]] /\ idle' = [s \in Conns |-> FALSE]
+  /\ UNCHANGED <<cvars, bTx, bCopy, bData, bad, dirty, tvars, cmap, viol>>
+  /\ Ctl("reap", "", "")
+
 Internal ==
   /\ \E c \in Clients :
        \/ \E s \in Conns : Checkout(c, s)
-       \/ Forward(c) \/ StatementTimeout(c)
+       \/ Forward(c) \/ ForwardVanished(c) \/ StatementTimeout(c)
        \/ pc[c] = "cleanup" /\ EndWithCleanup(c, FALSE)
   /\ UNCHANGED hist
 
@@ -67,12 +79,12 @@ Settle ==
                            holds |-> [c \in Clients |-> held[c] # NONE], bad |-> Bad])
   /\ UNCHANGED vars
 
-GNext == Controllable \/ Internal \/ Settle
+GNext == Controllable \/ ReapAll \/ Internal \/ Settle
 GInit == Init /\ hist = <<>>
 GSpec == GInit /\ [][GNext]_gvars
 
 \* A history is complete when the step budget is used or nothing controllable is left.
-Complete == Settled /\ (Steps >= Depth \/ ~ENABLED Controllable)
+Complete == Settled /\ (Steps >= Depth \/ ~ENABLED (Controllable \/ ReapAll))
 EverBad == \E i \in 1..Len(hist) : hist[i].op = "state" /\ hist[i].bad
 Emit == Complete => PrintT(<<"SCENARIO", ToJson([steps |-> hist, bad |-> EverBad])>>)
 =============================================================================
